@@ -46,9 +46,21 @@ pub fn silence_log() {
     set_log_level(LogLevel::Fatal);
 }
 
+/// per-process root directory (tmpfs) for everything that is a file
+pub fn root_path() -> String {
+    format!("/dev/shm/hffi_{}_root/", std::process::id())
+}
+
 pub fn config(prefix: &str) -> Config {
     let mut c = Config::default();
     c.global.prefix = FileName::new(prefix.as_bytes()).unwrap();
+    // all files of this process live in a tmpfs directory of their own: no fsync to a disk that
+    // other people are using, and no stale nodes of ours in the machine-wide /tmp/iceoryx2
+    c.global.set_root_path(&Path::new(root_path().as_bytes()).unwrap());
+    // same values as cside::config: keeps the per-port connection tables small (cost, not behaviour)
+    c.defaults.publish_subscribe.subscriber_expired_connection_buffer = EXPIRED_CONNECTIONS;
+    c.defaults.request_response.client_expired_connection_buffer = EXPIRED_CONNECTIONS;
+    c.defaults.request_response.server_expired_connection_buffer = EXPIRED_CONNECTIONS;
     c
 }
 
@@ -716,7 +728,7 @@ macro_rules! rr_qos {
             .max_borrowed_responses_per_pending_response($c.max_borrowed_responses)
             .enable_safe_overflow_for_requests(true)
             .enable_safe_overflow_for_responses(true)
-            .enable_fire_and_forget_requests(true)
+            .enable_fire_and_forget_requests($c.fire_and_forget)
     };
 }
 
